@@ -14,6 +14,14 @@ struct State {
     gates: HashMap<&'static str, Gate>,
     /// log of (logical clock, point, arg, thread) when logging is on
     log: Vec<(u64, &'static str, u64, String)>,
+    /// probe database (visible seqno) for the S6 window detector
+    probe: Option<fjall::Database>,
+    /// seqno -> (tick at draw, thread, ordinal of this thread's draws)
+    drawn: HashMap<u64, (u64, String, u64)>,
+    draws_per_thread: HashMap<String, u64>,
+    /// windows in which the visible seqno was already above a drawn, still unpublished seqno:
+    /// (thread, ordinal, seqno, tick at draw, tick at publish, visible seqno seen)
+    premature: Vec<(String, u64, u64, u64, u64, u64)>,
 }
 
 #[derive(Default, Clone)]
@@ -71,6 +79,24 @@ fn handler(name: &'static str, arg: u64) {
         if LOGGING.load(Ordering::Relaxed) {
             let t = tick();
             st.log.push((t, name, arg, thread_name()));
+        }
+        if st.probe.is_some() {
+            if name == "batch.drawn" || name == "write.drawn" {
+                let th = thread_name();
+                let n = st.draws_per_thread.entry(th.clone()).or_insert(0);
+                *n += 1;
+                let ord = *n;
+                let t = tick();
+                st.drawn.insert(arg, (t, th, ord));
+            } else if name == "batch.before_publish" || name == "write.before_publish" {
+                let vis = st.probe.as_ref().map_or(0, fjall::Database::visible_seqno);
+                if let Some((t0, th, ord)) = st.drawn.remove(&arg) {
+                    if vis > arg {
+                        let t1 = tick();
+                        st.premature.push((th, ord, arg, t0, t1, vis));
+                    }
+                }
+            }
         }
         if let Some(gate) = st.gates.get_mut(name) {
             if gate.armed && (gate.thread_prefix.is_empty() || thread_name().starts_with(&gate.thread_prefix)) {
@@ -246,4 +272,32 @@ pub fn clear_gates() {
     g.cv.notify_all();
     // keep released entries until no one waits; then drop
     st.gates.retain(|_, x| x.waiting > 0);
+}
+
+
+/// Installs (or removes) the database whose visible seqno is probed at publish points.
+pub fn set_probe(db: Option<fjall::Database>) {
+    let g = global();
+    let old = {
+        let mut st = g.st.lock().unwrap_or_else(|e| e.into_inner());
+        st.drawn.clear();
+        st.draws_per_thread.clear();
+        st.premature.clear();
+        std::mem::replace(&mut st.probe, db)
+    };
+    drop(old);
+}
+
+/// Removes the probe and returns the windows (thread, ordinal, seqno, t_draw, t_publish, visible).
+pub fn take_premature() -> Vec<(String, u64, u64, u64, u64, u64)> {
+    let g = global();
+    let (old, v) = {
+        let mut st = g.st.lock().unwrap_or_else(|e| e.into_inner());
+        let v = std::mem::take(&mut st.premature);
+        st.drawn.clear();
+        st.draws_per_thread.clear();
+        (st.probe.take(), v)
+    };
+    drop(old);
+    v
 }
